@@ -4,10 +4,11 @@ import BarterModel.Model.ExecMap
 Line-protocol driver for C04.
 
 Ops (`e` = exchange id of the execution link the op is executed on):
-  `def <ex> <instInternal> <instName> <baseInternal> <baseName> <quoteInternal> <quoteName>`
-        one instrument definition for the real builder (ignored by the model: indexing is C11)
-  `build X <n> {key id}* A <n> {key ex name}* I <n> {key ex name}*`
-        the indexed collection the real builder produced (echoed by both sides)
+  `build D <n> {ex instInternal instName baseInternal baseName quoteInternal quoteName}*
+         X <n> {key id}* A <n> {key ex name}* I <n> {key ex name}*`
+        the instrument definitions fed to the real builder (skipped by the model: indexing is C11)
+        and the indexed collection the builder produced from them (printed by both sides: the
+        harness prints what the real builder returns, so a stale table is a disagreement)
   `tamper (X|A|I) <pos> <key>`
         overwrite the key of one entry (a collection outside `Indexed`; the spec is silent)
   `map e` | `fexid e x` | `fexix e id` | `fan e a` | `fai e name` | `fin e i` | `fii e name`
@@ -245,7 +246,15 @@ def pPairs : P (List (Nat × Nat)) :=
       | _, _ => none
     | _ => none
 
-def pColl : P Coll
+/-- the definitions the real builder is fed: skipped (indexing is C11), but must be well-formed -/
+def pDefs : P Unit
+  | "D" :: ts =>
+    match pNat ts with
+    | some (n, ts) => (pRep pNat (7 * n) ts).map fun (_, ts) => ((), ts)
+    | none => none
+  | _ => none
+
+def pTables : P Coll
   | "X" :: ts =>
     match pPairs ts with
     | some (xs, "A" :: ts) =>
@@ -259,14 +268,15 @@ def pColl : P Coll
     | _ => none
   | _ => none
 
+def pColl : P Coll := fun ts =>
+  match pDefs ts with
+  | some (_, ts) => pTables ts
+  | none => none
+
 def collLines (c : Coll) : List String :=
   [ line ("exchanges" :: c.exchanges.map fun k => s!"{k.key}:{k.id}"),
     line ("assets" :: c.assets.map fun k => s!"{k.key}:{k.exchange}:{k.nameExchange}"),
     line ("instruments" :: c.instruments.map fun k => s!"{k.key}:{k.exchange}:{k.nameExchange}") ]
-
-def nats (l : List String) : Option (List Nat) := l.mapM String.toNat?
-
-def isDefOp (ts : List String) : Bool := ts.length == 7 && (nats ts).isSome
 
 /-! ## model driver -/
 
@@ -362,7 +372,6 @@ def queryOps : List String :=
 def step (query : Coll → String → Nat → List String → List String) (buildOut : Coll → List String)
     (s : Option Coll) (toks : List String) : Option Coll × List String :=
   match toks with
-  | "def" :: rest => if isDefOp rest then (s, []) else (s, ["bad-op"])
   | "build" :: rest =>
     match full pColl rest with
     | some c => (some c, buildOut c)
